@@ -236,6 +236,58 @@ def mux_predicate(c, o):
     return bad
 
 
+def gen_rpc_case(rng):
+    """Real rpc::Service (hook verif::rpc): cooperative client, raw flooding peer, raw withholding peer."""
+    n = rng.choice([1, 2, 5])
+    refresh = rng.choice([3, 10, 10, 25, 100, 1000])
+    rs = [str(rng.choice([1, 1, 2, 3, 5])), str(refresh)]
+    k = rng.below(10)
+    mode = "pair" if k < 5 else ("flood" if k < 8 else "withhold")
+    rc = [str(USIZE_MAX), "0"] if rng.chance(1, 2) else [str(rng.choice([1, 2, 5])), str(rng.choice([1, 3, 10, 100]))]
+    unit = refresh
+    advs = [str(rng.choice([1, unit // 2 + 1, unit, unit, unit - 1, 2 * unit, unit * rng.range(1, 6), rng.range(1, 3 * unit)]))
+            for _ in range(rng.range(8, 30))]
+    c = {"mode": mode, "n": n, "rs": rs, "rc": rc, "tasks": rng.range(1, 7),
+         "hold": str(rng.choice([0, 0, 1, unit // 2, unit, 3 * unit])), "rounds": rng.range(5, 40), "advs": advs,
+         "kind": "rpc-" + mode}
+    if mode == "withhold":
+        c["warm"] = [str(unit)] * (n + int(rs[0]) + 2)   # long enough to open every stream and refill the bucket
+    return c
+
+
+def rpc_predicate(c, o):
+    """Handler starts (HandlerLog) in any window within the server's rate; running handlers <= INFLIGHT.
+    Returns (failures, strict_excess) where strict_excess describes a window of the withhold scenario that
+    exceeds burst + T/refresh + 1 while staying within + INFLIGHT."""
+    if "panic" in o:
+        return [{"failed": "rpc harness panicked: " + o["panic"]}], None
+    bad, excess = [], None
+    burst, refresh, n = int(c["rs"][0]), int(c["rs"][1]), c["n"]
+    cur = 0
+    starts = []
+    for e in o["events"]:
+        cur += e[0]
+        if e[0] == 1:
+            starts.append((int(e[1]), 1))
+        if cur > n:
+            bad.append({"failed": f"{cur} handlers running at once > INFLIGHT {n}", "at": e[1]})
+            break
+    w = window_violation(starts, burst, refresh)
+    if w and c["mode"] != "withhold":
+        bad.append({"failed": f"{w['permits']} handler starts in [{w['from']},{w['to']}] > burst + T/refresh + 1 = {w['bound']}", "window": w})
+    elif w:
+        excess = w
+        w2 = window_violation(starts, burst + n, refresh)
+        if w2:
+            bad.append({"failed": f"{w2['permits']} handler starts in [{w2['from']},{w2['to']}] > burst + T/refresh + 1 + INFLIGHT = {w2['bound']}", "window": w2})
+    return bad, excess
+
+
+def coq_rpc_trace(c, o):
+    evs = coq_list([f"({coq_z(e[1])}, {'true' if e[0] == 1 else 'false'})" for e in o["events"]])
+    return f"({coq_z(c['rs'][0])}, {coq_z(c['rs'][1])}, {c['n']}%nat, {evs})"
+
+
 def coq_trace(c, o, side):
     """Observed (time, open?) events of one side as a Coq term for Model.Limiter.accept_trace."""
     rate = c["ra"] if side == 0 else c["rb"]
@@ -428,7 +480,7 @@ def run(rep):
     po = common.proof_obligations(PROP_FILES)
     if not po["ok"]:
         broken.append("Coq obligations of Properties/C15.v: " + (po["log_tail"] or str(po["hygiene_problems"] or po["bad_axioms"])))
-    ok, out = common.cargo_build(["limiter", "limiter_mux"], "dev")
+    ok, out = common.cargo_build(["limiter", "limiter_mux", "limiter_rpc"], "dev")
     if not ok:
         raise common.MachineryError("cargo build failed: " + out[-2000:])
     cases, twins = build_cases(rng, tier)
@@ -510,6 +562,50 @@ def run(rep):
                       {"broken": broken, "first_disagreement": {"case": mcases[t[3]], "side": t[4], "impl": mouts[t[3]], "model_obs": tmm[k],
                                                                 "meaning": "[accepted, events consumed before rejection, opens]"}},
                       found_input=False)
+    # ---- RPC half, rpc::Service itself (hook verif::rpc): handler starts and concurrency, trace acceptance
+    nrpc = 60 if tier == "quick" else 1500
+    rcases = [gen_rpc_case(rng) for _ in range(nrpc)]
+    routs, rhung = run_impl_retry("limiter_rpc", rcases)
+    hangs += [{"binary": "limiter_rpc", "case": rcases[i]} for i in rhung]
+    rpc_fail, rtraces, rpc_starts, excesses = [], [], 0, []
+    for i, (c, o) in enumerate(zip(rcases, routs)):
+        if "skipped" in o or o.get("hang"):
+            continue
+        if "crash" in o:
+            rpc_fail.append({"case": c, "impl": o, "failed": "the rpc harness process aborted: " + str(o.get("stderr", ""))[-200:]})
+            continue
+        kinds[c["kind"]] = kinds.get(c["kind"], 0) + 1
+        b, ex = rpc_predicate(c, o)
+        for x in b:
+            rpc_fail.append({"case": c, "impl": o, **x})
+        if ex:
+            excesses.append({"case": c, "window": ex})
+        if "panic" in o:
+            continue
+        nst = sum(1 for e in o["events"] if e[0] == 1)
+        rpc_starts += nst
+        if c["mode"] != "withhold":   # there the handler start is later than the OPEN it belongs to
+            rtraces.append((len(rtraces), coq_rpc_trace(c, o), common.to_obsv([1, len(o["events"]), nst]), i))
+    rmm, rsamp = common.run_model_cases("C15rpc", "From EC Require Import Model.Limiter.", "Model.Limiter.accept_trace",
+                                        [(t[0], t[1], t[2]) for t in rtraces], shard_size=(8 if tier == "quick" else 100), sample_ids=[0])
+    if rmm:
+        broken.append(f"trace acceptance vh limiter_rpc vs Model.Limiter.accept_trace: {len(rmm)} observed handler traces are not runs of the StreamQueue model")
+    # the withholding peer: strict bound exceeded by at most INFLIGHT (finding); strict only once registered
+    known = common.load_known_findings()
+    registered = [e for e in known.get("open", []) if "property=C15" in e]
+    if excesses and registered:
+        rep.known(registered[0].split("property=C15", 1)[1].strip())
+    if rpc_fail and not pred_fail and not mux_fail:
+        rpc_fail.sort(key=lambda f: len(f["impl"].get("events", [])))
+        rep.violation("rpc::Service violates C15 on the implementation: " + rpc_fail[0]["failed"],
+                      {"failing_input": rpc_fail[0], "more": [f["failed"] for f in rpc_fail[1:6]], "broken": broken})
+    elif rmm and not pred_fail and not mux_fail and not mm and not tmm:
+        k = sorted(rmm)[0]
+        t = rtraces[k]
+        rep.violation("C15 no longer shown to hold: " + broken[-1],
+                      {"broken": broken, "first_disagreement": {"case": rcases[t[3]], "impl": routs[t[3]], "model_obs": rmm[k],
+                                                                "meaning": "[accepted, events consumed before rejection, opens]"}},
+                      found_input=False)
     if hangs:
         rep.violation(f"machinery failure: {len(hangs)} case(s) did not terminate within the per-case watchdog (20 s real time) even when retried alone "
                       f"(binary {hangs[0]['binary']}): the code under test or the harness does not terminate on this input",
@@ -518,7 +614,7 @@ def run(rep):
         pred_fail.sort(key=lambda f: len(f["case"]["ops"]))
         rep.violation("rate limiter violates C15 on the implementation: " + pred_fail[0]["failed"],
                       {"failing_input": pred_fail[0], "more": [f["failed"] for f in pred_fail[1:6]], "broken": broken})
-    elif broken and not mux_fail and not (tmm and not mm):
+    elif broken and not mux_fail and not rpc_fail and not (tmm and not mm) and not (rmm and not mm and not tmm):
         first = None
         if mm:
             i = min(mm, key=lambda i: len(cases[i]["ops"]))
@@ -526,25 +622,33 @@ def run(rep):
         rep.violation("C15 no longer shown to hold: " + "; ".join(broken)[:600],
                       {"broken": broken, "first_disagreement": first}, found_input=False)
     cov.update({
-        "obligations": po["obligations"] + 2,
-        "discharged": po["discharged"] + (0 if mm else 1) + (0 if tmm else 1),
+        "obligations": po["obligations"] + 3,
+        "discharged": po["discharged"] + (0 if mm else 1) + (0 if tmm else 1) + (0 if rmm else 1),
         "checker_cmd": "./coqmake theories/Properties/C15.vo (make, coqc 8.16.1) + coqc on generated build/cases/C15/cases_*.v (vm_compute of Model.Limiter.run_case vs the harness output)",
         "trusted_base": common.standard_trusted_base([
             "H-ATOM: tokio Mutex is FIFO-fair, watch::Sender::send_modify / wait_for critical sections and std Mutex sections are atomic (the grain of the step relation)",
             "ctx::ManualClock is the clock (the real clock enters only through ctx.now() / sleep_until_deadline); clock readings stay below the overflow point of time::Instant",
-            "RPC half: the StreamQueue model (permit per OPEN) is tied to mux/reusable_stream.rs by trace acceptance of real Mux runs (hooks VMux/VQueue); rpc::Server::serve (one reserved stream per in-flight call) is modelled by reading only",
+            "RPC half: the StreamQueue model (permit per OPEN) is tied to mux/reusable_stream.rs by trace acceptance of real Mux runs (hooks VMux/VQueue); rpc::Server::serve is driven through the hook verif::rpc (VRpc<N>, ping wire messages) and its handler traces are accepted by the same model",
         ]),
         "theorems": po["theorems"], "axioms": po["axioms"],
-        "evaluations": len(cases) + len(mcases),
+        "evaluations": len(cases) + len(mcases) + len(rcases),
+        "rpc_cases": len(rcases), "rpc_handler_starts": rpc_starts, "rpc_traces": len(rtraces), "rpc_traces_accepted_by_model": len(rtraces) - len(rmm),
+        "rpc_predicate_failures": len(rpc_fail),
+        "withhold_probe": {"cases_exceeding_strict_bound": len(excesses), "registered_as_known_finding": bool(registered),
+                           "example": excesses[0] if excesses else None,
+                           "meaning": "a raw peer opens every INFLIGHT stream, withholds the requests while the bucket refills, then sends them at once: "
+                                      "handler starts in a window exceed burst + T/refresh + 1 (the limiter bounds OPENs, not handler starts); "
+                                      "enforced there: burst + T/refresh + 1 + INFLIGHT"},
         "mux_cases": len(mcases), "mux_traces_accepted_by_model": len(traces) - len(tmm), "mux_traces": len(traces), "mux_streams_opened": mux_opens,
         "mux_predicate_failures": len(mux_fail),
         "distinct_nontrivial": len(distinct),
-        "rule": "scripts of 4-45 (thorough: up to 140) ops over one Limiter: acquire(p) with p in {1, 0, 1..burst, burst, burst+1, usize::MAX} (1/3 cancellable through their ctx, 2/3 by dropping the future), cancel k, drop k (live targets 6/7, arbitrary 1/7), clock advances {0,1,r-1,r,r+1,k*r,sub-tick,huge}; burst in {0,1..30,2^k,usize::MAX}, refresh in {1..10 ns, ms..s, random, 10^18, 0, negative}, start offset; + flood scripts (back-to-back acquire(1), consume at once) + twin scripts (inserted acquire+cancel) + mux cases (1-3 x 1-3 streams, 1-4 app tasks per side looping open/hold/drop, rates burst 1-5 / refresh 3-1000 ns or INF, pair or raw flood peer); non-trivial = distinct scripts in which some acquire had to wait (granted later than issued, pending at the end, or cancelled)",
+        "rule": "scripts of 4-45 (thorough: up to 140) ops over one Limiter: acquire(p) with p in {1, 0, 1..burst, burst, burst+1, usize::MAX} (1/3 cancellable through their ctx, 2/3 by dropping the future), cancel k, drop k (live targets 6/7, arbitrary 1/7), clock advances {0,1,r-1,r,r+1,k*r,sub-tick,huge}; burst in {0,1..30,2^k,usize::MAX}, refresh in {1..10 ns, ms..s, random, 10^18, 0, negative}, start offset; + flood scripts (back-to-back acquire(1), consume at once) + twin scripts (inserted acquire+cancel) + mux cases (1-3 x 1-3 streams, 1-4 app tasks per side looping open/hold/drop, rates burst 1-5 / refresh 3-1000 ns or INF, pair or raw flood peer) + rpc::Service cases (INFLIGHT 1/2/5, server burst 1-5 / refresh 3-1000 ns, client with 1-6 tasks calling back to back, raw flood peer, raw withholding peer, handler hold 0..3 refresh); non-trivial = distinct scripts in which some acquire had to wait (granted later than issued, pending at the end, or cancelled)",
         "input_distribution": dict(kinds, acquires=nacq, grants=ngr, cancelled=ncancel, twin_pairs=len(twins), twin_pairs_with_cancelled_wait=twin_checked),
         "samples": [{"case": strip(cases[i]), "impl": outs[i], "model_obs": samp.get(i)} for i in sample_ids if i < len(cases)]
-                   + [{"mux_case": mcases[t[3]], "side": t[4], "impl": mouts[t[3]], "model_accept_trace": tsamp.get(t[0])} for t in traces[:2]],
+                   + [{"mux_case": mcases[t[3]], "side": t[4], "impl": mouts[t[3]], "model_accept_trace": tsamp.get(t[0])} for t in traces[:2]]
+                   + [{"rpc_case": rcases[t[3]], "impl": routs[t[3]], "model_accept_trace": rsamp.get(t[0])} for t in rtraces[:1]],
         "correspondence_mismatches": len(mm), "predicate_failures": len(pred_fail), "hung_cases": len(hangs),
-        "partial": "proved for the limiter (all step sequences of the atomic-step model, which the scripts refine) and for the permit-per-OPEN model of a StreamQueue; the RPC half is tied to the code at mux level only (real Mux pairs / a raw flooding peer under ManualClock: window and concurrency predicates + acceptance of the observed open/close traces by the model); rpc::Service itself (Server::serve, ReservedCall) is not driven (no hook; see proposed_hooks/C15.diff); concurrency <= INFLIGHT relies on C14 open_streams_bounded for the number of reusable streams",
+        "partial": "proved for the limiter (all step sequences of the atomic-step model, which the scripts refine) and for the permit-per-OPEN model of a StreamQueue. The RPC half is tied to the code by runs of real Mux pairs and of the real rpc::Service (Server::serve / Client::call through the hook verif::rpc; cooperative multi-task client, raw flooding peer, raw withholding peer) under ManualClock: window and concurrency predicates on stream opens / handler starts + acceptance of the observed traces by the model; no theorem covers Server::serve's own code. FINDING: the limiter bounds OPENs, not handler starts - a peer that opens all INFLIGHT streams and withholds the requests gets up to burst + INFLIGHT handlers started at one instant, i.e. handler starts are only within burst + T/refresh + 1 + INFLIGHT (see coverage.withhold_probe, proposed_fixes/C15-1.diff); the strict bound is enforced for cooperative and flooding peers. Concurrency <= INFLIGHT relies on C14 open_streams_bounded for the number of reusable streams",
     })
     rep.assumptions += ["H-ATOM (fair tokio Mutex, atomic watch/Mutex critical sections)",
                         "monotone clock; readings below time::Instant overflow"]
@@ -558,6 +662,17 @@ def replay(path):
         return 1
     c = fi["case"]
     common.cargo_build(["limiter", "limiter_mux"], "dev")
+    common.cargo_build(["limiter_rpc"], "dev")
+    if "mode" in c and "rs" in c:
+        o = common.run_impl("limiter_rpc", [c], "dev", timeout=IMPL_TIMEOUT)[0]
+        print("case:", json.dumps(c))
+        print("impl:", json.dumps(o))
+        if not (o.get("hang") or "crash" in o or "panic" in o):
+            print("predicate:", rpc_predicate(c, o))
+            mm, samp = common.run_model_cases("C15rpc", "From EC Require Import Model.Limiter.", "Model.Limiter.accept_trace",
+                                              [(0, coq_rpc_trace(c, o), common.to_obsv([1, 0, 0]))], sample_ids=[0])
+            print("model accept_trace [accepted, events consumed, opens]:", samp)
+        return 0
     if "mode" in c:
         o = common.run_impl("limiter_mux", [c], "dev", timeout=IMPL_TIMEOUT)[0]
         print("case:", json.dumps(c))
